@@ -75,5 +75,15 @@ def write_family(p):
             for q, f in sorted(p.functions.items()):
                 if q.startswith(t.qual + ".") and not isinstance(f.node, ast.Lambda):
                     fam.append(f)
+        # private classes of the writer module that today's tree does not have and that the family instantiates (closures of
+        # write() turned into a small formatter class): their methods play the closures' part
+        from sa.normalize import _reference
+        ref = _reference()
+        made = {c.func.id for f in fam for c in ast.walk(f.node) if isinstance(c, ast.Call) and isinstance(c.func, ast.Name)}
+        for cq, ci in sorted(p.classes.items()):
+            if ci.module.name == "writer" and ci.name in made and not any(k.startswith(cq + ".") for k in ref):
+                for m in ci.methods.values():
+                    if m not in fam and not isinstance(m.node, ast.Lambda):
+                        fam.append(m)
         return fam
     return p.cached("write_family", build)
